@@ -24,6 +24,7 @@
 #include "common/vreport.h"
 
 #include <sys/stat.h>
+#include <sys/prctl.h>
 #include <dirent.h>
 #include <cstdarg>
 
@@ -242,11 +243,16 @@ struct Explorer
   // ---- enumeration of one shard
   void shard_body(int shard, long long resume_after)
   {
+    prctl(PR_SET_PDEATHSIG, SIGKILL);  // no orphans when the driver kills the harness
     char sp[256];
     snprintf(sp, sizeof sp, "%s/%s-%d.viol", dir.c_str(), sys.tag(), shard);
     spill().path = sp;
     if (resume_after >= 0)
       spill().load();
+    if (vr::deadline_passed()) {  // also bounds the time a tree that crashes in most histories can take
+      vr::capped(std::string(sys.tag()) + ": deadline reached, shard " + std::to_string(shard) + (resume_after >= 0 ? " not resumed after history #" + std::to_string(resume_after) : " not started"));
+      return;
+    }
     std::vector<int> ops, prev, off;
     std::string full = std::string(sys.tag()) + ":";
     std::vector<typename Sys::Model> ms(depth + 1, sys.initial());
@@ -370,6 +376,20 @@ struct Explorer
     }
     munmap(shared, sizeof(Counters) * nshards);
     rm_rf_flat(dir);
+    {  // one line instead of one per shard
+      std::lock_guard<std::mutex> g(vr::S().m);
+      std::vector<std::string> keep;
+      int cut = 0;
+      const std::string mine = std::string(sys.tag()) + ": deadline reached";
+      for (auto &c : vr::S().capped)
+        if (c.compare(0, mine.size(), mine) == 0)
+          cut++;
+        else
+          keep.push_back(c);
+      if (cut)
+        keep.push_back(mine + " in " + std::to_string(cut) + " of " + std::to_string(nshards) + " shards: " + std::to_string(tc) + " maximal histories of depth " + std::to_string(depth) + " were replayed, the enumeration is incomplete");
+      vr::S().capped = keep;
+    }
     vr::stat("states", st);
     vr::stat("transitions", tr);
     vr::stat("traces", tc);
